@@ -142,7 +142,7 @@ impl<M: MovingAverageConstructor> IndicatorInstance for KeltnerChannelInstance<M
 		let lower = atr.mul_add(-self.cfg.sigma, ma);
 
 		let signal =
-			self.cross_under.next(&(source, lower)) - self.cross_above.next(&(source, upper));
+			self.cross_above.next(&(source, upper)) - self.cross_under.next(&(source, lower));
 
 		IndicatorResult::new(&[source, upper, lower], &[signal])
 	}
